@@ -130,6 +130,20 @@ CHECKS = {
         note="13 step variants x sizes {0, 1/2, 1, 2} x 4 function kinds x 3 starting points x 3 preceding-step options. "
              "Concrete side limited to members with closed-form steps (quadratics, |x|, intervals, quadratic mirror maps).",
     ),
+    "C09": dict(
+        category="exploration",
+        technique="bounded exhaustive numerical execution of the modelled methods on a finite catalogue of real class members x "
+                  "grid starts x every resolution of the method's nondeterminism, compared with the value the library returns",
+        text="30 example families (gradient, momentum / accelerated, line search, inexact, proximal, splitting, Frank-Wolfe, "
+             "fixed-point, monotone-operator, variational-inequality, stochastic / coordinate methods) have an independent "
+             "numerical implementation; for every grid point of their documented parameter ranges the method is run on every "
+             "catalogue member that passes the definitional self-test of the declared class, from every grid start satisfying "
+             "the initial condition, under every subgradient selection / epsilon-subgradient end point / inexact direction on "
+             "the error boundary / LMO tie / exact expectation over indices. No run may beat the returned value. In ~45% of "
+             "the settings a real run attains the returned bound, so a tightened bound is visible there.",
+        note="Genuinely partial: catalogue members in R and R^2 only, grid starts, grid parameters, iteration counts <= 6; "
+             "continuous-time, potential-function, Bregman / NoLips examples are not covered by real runs.",
+    ),
     "C10": dict(
         category="exploration",
         technique="bounded exhaustive run of every shipped example with a closed form over a parameter grid of its documented "
